@@ -1363,7 +1363,7 @@ class C09(core.Check):
         "the theorems are about sizes (maxcol,) and (maxcol, maxrow); trees with fixed-size parts are covered by the extended model and the oracle only",
         "leaf contract: a leaf's get_cursor_coords equals the cursor of its own focused rendering; a cursor implies selectable + cursor API",
         "the bottom widget of an Overlay is background: it never receives mouse events (by design of Overlay.mouse_event)",
-        "mouse events and cursor moves follow a rendering at the same size; get_cursor_coords is additionally asked on the never-rendered tree",
+        "mouse events and cursor moves follow a rendering at the same size; additionally get_cursor_coords and sample presses are sent to a never-rendered tree and to a tree last rendered at another width, and after a focus-moving press get_cursor_coords is compared with the next focused rendering with the canvas cache in use",
     ]
 
     # ---------- implementation ----------
